@@ -641,14 +641,18 @@ fn run_job(job: &J) -> J {
     let mut ctxs: Vec<Option<Context>> = vec![];
     let mut ctx_json: Vec<J> = vec![];
     let t0 = std::time::Instant::now();
-    match build_context(&job["ctx"]) {
-        Ok(c) => {
+    match catch_unwind(AssertUnwindSafe(|| build_context(&job["ctx"]))) {
+        Ok(Ok(c)) => {
             ctxs.push(Some(c));
             ctx_json.push(json!({"ok": true}));
         }
-        Err(e) => {
+        Ok(Err(e)) => {
             ctxs.push(None);
             ctx_json.push(json!({"ok": false, "error": e}));
+        }
+        Err(_) => {
+            ctxs.push(None);
+            ctx_json.push(json!({"ok": false, "error": "PANIC while building the context", "panic": true}));
         }
     }
     if let Some(stages) = job.get("stages").and_then(|x| x.as_array()) {
